@@ -628,6 +628,15 @@ def run(ctx) -> None:
 def replay(ctx, payload) -> int:
     """Re-execute one audited call: {"rule","entry","path","base"} on a fresh workspace."""
     case = payload.get("case", {})
+    if case.get("rule") == "strace":
+        warm_up()
+        oracle_strace(ctx)
+        hits = [v for v in ctx.violations if v["key"].startswith("strace:")]
+        for v in hits[:5]:
+            print("replay: STILL FAILS", v["what"][:400])
+        if not hits:
+            print("replay: passes now (strace cross-check clean)")
+        return 1 if hits else 0
     if not {"entry", "path", "base"} <= set(case):
         print("replay: payload names no concrete call (broken proof / correspondence): re-run ./bin/check C17 thorough")
         return 2
